@@ -7,7 +7,12 @@
 //! pattern search = all positions found by a naive scan.
 //!
 //! LCP / BWT / search are judged only when the suffix array of the same case is correct (their stated input is
-//! "the suffix array"); a wrong suffix array is reported once, as `sa_permutation` / `sa_order`.
+//! "the suffix array"); a wrong suffix array is reported once, under clause `suffix_array`
+//! with class `<resolved algorithm>/<text class>`.
+//!
+//! All subjects share one case type (`SaCase { text, entry }`) and one `run` function that dispatches on `entry`,
+//! so that a known finding with subject `SuffixArray/*` (one construction defect seen through several entry
+//! points) can be replayed on whichever subject is registered first.
 
 use serde::{de::DeserializeOwned, Deserialize, Serialize};
 use std::cell::OnceCell;
@@ -252,18 +257,12 @@ fn grid_max(tier: Tier) -> usize {
 
 fn text_class(t: &[u8]) -> &'static str {
     let n = t.len();
-    if n <= 2 {
-        return match n {
-            0 => "n0",
-            1 => "n1",
-            _ => {
-                if t[0] == t[1] {
-                    "n2_equal"
-                } else {
-                    "n2_distinct"
-                }
-            }
-        };
+    if n <= 1 {
+        return "n<=1";
+    }
+    if n == 2 && t[0] == t[1] {
+        // its own class: builders special-case two-byte texts
+        return "n2_equal";
     }
     let nondec = t.windows(2).all(|w| w[0] <= w[1]);
     let noninc = t.windows(2).all(|w| w[0] >= w[1]);
@@ -300,30 +299,25 @@ fn show_sa(sa: &[usize]) -> String {
     }
 }
 
-/// The suffix-array oracle.  `Some((clause, class, detail))` if `sa` is not the suffix array of `t`.
-fn judge_sa(t: &[u8], sa: &[usize]) -> Option<(&'static str, String, String)> {
+/// The suffix-array oracle: "the unique permutation of 0..n that orders the text's suffixes lexicographically".
+/// `Some((symptom, detail))` if `sa` is not that permutation.
+fn judge_sa(t: &[u8], sa: &[usize]) -> Option<(&'static str, String)> {
     let n = t.len();
-    let tc = text_class(t);
     let expected = || if n <= 64 { format!(", expected {:?}", naive_sa(t)) } else { String::new() };
     if sa.len() != n {
-        return Some(("sa_permutation", format!("wrong_len/{tc}"), format!("text {}: suffix array has {} entries for {} suffixes", brief(t), sa.len(), n)));
+        return Some(("wrong_len", format!("text {}: suffix array has {} entries for {} suffixes", brief(t), sa.len(), n)));
     }
     let mut seen = vec![false; n];
     for &p in sa {
         if p >= n || seen[p] {
-            return Some((
-                "sa_permutation",
-                format!("not_permutation/{tc}"),
-                format!("text {}: {} is not a permutation of 0..{n} (entry {p} repeated or out of range){}", brief(t), show_sa(sa), expected()),
-            ));
+            return Some(("not_permutation", format!("text {}: {} is not a permutation of 0..{n} (entry {p} repeated or out of range){}", brief(t), show_sa(sa), expected())));
         }
         seen[p] = true;
     }
     for r in 1..n {
         if t[sa[r - 1]..] >= t[sa[r]..] {
             return Some((
-                "sa_order",
-                tc.to_string(),
+                "wrong_order",
                 format!("text {}: {} is not in suffix order at ranks {},{} (suffix {} >= suffix {}){}", brief(t), show_sa(sa), r - 1, r, sa[r - 1], sa[r], expected()),
             ));
         }
@@ -416,21 +410,58 @@ fn pattern_class(t: &[u8], p: &[u8], count: usize) -> &'static str {
 }
 
 // ------------------------------------------------------------------------------------------------
-// algorithms::suffix_array::SuffixArrayBuilder x algorithm x variant
+// the case type shared by all subjects
+
+#[derive(Clone, Copy, Debug, PartialEq, Eq, Hash, Serialize, Deserialize)]
+enum Alg {
+    SAIS,
+    DivSufSort,
+    DC3,
+    LarssonSadakane,
+    Adaptive,
+}
+
+impl Alg {
+    fn real(self) -> SuffixArrayAlgorithm {
+        match self {
+            Alg::SAIS => SuffixArrayAlgorithm::SAIS,
+            Alg::DivSufSort => SuffixArrayAlgorithm::DivSufSort,
+            Alg::DC3 => SuffixArrayAlgorithm::DC3,
+            Alg::LarssonSadakane => SuffixArrayAlgorithm::LarssonSadakane,
+            Alg::Adaptive => SuffixArrayAlgorithm::Adaptive,
+        }
+    }
+}
+
+#[derive(Clone, Copy, Debug, PartialEq, Eq, Hash, Serialize, Deserialize)]
+enum Entry {
+    /// algorithms::suffix_array::SuffixArrayBuilder::build.  variant:
+    ///   0 = defaults (sequential, optimize_small_alphabet = true, adaptive_threshold = 10_000)
+    ///   1 = optimize_small_alphabet = false
+    ///   2 = use_parallel = true, parallel_threshold = 0
+    ///   3 = adaptive_threshold = 0 (the analysis always decides)    4 = adaptive_threshold = 8
+    Builder { alg: Alg, variant: u8 },
+    /// algorithms::suffix_array::EnhancedSuffixArray::with_lcp
+    EnhancedLcp,
+    /// algorithms::suffix_array::EnhancedSuffixArray::with_bwt
+    EnhancedBwt,
+    /// compression::suffix_array::SuffixArrayCompressor::build_suffix_array on text + 0x00 sentinel.
+    /// preset: 0 = default, 1 = for_dictionary_compression (with LCP), 2 = for_realtime (no pool)
+    Compressor { preset: u8 },
+    /// compression::dict_zip::SuffixArrayDictionary built over the text (min_pattern_length 1, min_frequency 1).
+    /// sa: the suffix_array_config algorithm (Adaptive = the default)
+    Dictionary { sa: Alg },
+}
 
 #[derive(Clone, Debug, Hash, Serialize, Deserialize)]
 struct SaCase {
     text: Text,
-    /// 0 = defaults (sequential, optimize_small_alphabet = true, adaptive_threshold = 10_000)
-    /// 1 = optimize_small_alphabet = false
-    /// 2 = use_parallel = true, parallel_threshold = 0
-    /// 3 = adaptive_threshold = 0 (the analysis always decides)    4 = adaptive_threshold = 8
-    variant: u8,
+    entry: Entry,
 }
 
-fn sa_config(alg: SuffixArrayAlgorithm, variant: u8) -> SuffixArrayConfig {
+fn sa_config(alg: Alg, variant: u8) -> SuffixArrayConfig {
     SuffixArrayConfig {
-        algorithm: alg,
+        algorithm: alg.real(),
         use_parallel: variant == 2,
         parallel_threshold: if variant == 2 { 0 } else { 100_000 },
         compute_lcp: false,
@@ -443,26 +474,78 @@ fn sa_config(alg: SuffixArrayAlgorithm, variant: u8) -> SuffixArrayConfig {
     }
 }
 
-/// Everything the statement says about one (text, suffix array): order, LCP, search.
-fn judge_suffix_array(case_text: &Text, t: &[u8], sa: &SuffixArray, with_search: bool, label: &str) -> Outcome {
+/// the algorithm a configuration resolves to for a text (`select_algorithm` is public)
+fn resolved(cfg: &SuffixArrayConfig, t: &[u8]) -> String {
+    format!("{:?}", SuffixArrayBuilder::new(cfg.clone()).select_algorithm(t))
+}
+
+fn sa_fail(alg: &str, t: &[u8], sym: &str, detail: String) -> Outcome {
+    enumr::fail("suffix_array", format!("{alg}/{}", text_class(t)), format!("{sym}: {detail}"))
+}
+
+/// search clause for one (text, correct suffix array): `search(p)` must give the rank range of p.
+fn judge_search(case_text: &Text, t: &[u8], sa: &SuffixArray) -> Option<Outcome> {
     let n = t.len();
-    if let Some((clause, class, detail)) = judge_sa(t, sa.as_slice()) {
-        return enumr::fail(clause, class, detail);
+    let (alpha, foreign) = case_text.alphabet(t);
+    for p in patterns(t, &alpha, foreign) {
+        let occ = naive_occurrences(t, &p);
+        let (start, count) = sa.search(t, &p);
+        let (lo, hi) = sa.search_range(t, &p);
+        let pc = pattern_class(t, &p, occ.len());
+        if hi < lo || hi - lo != count || (count > 0 && lo != start) {
+            return Some(enumr::fail("search", format!("search_vs_search_range/{pc}"), format!("text {} pattern {}: search = ({start},{count}), search_range = ({lo},{hi})", brief(t), brief(&p))));
+        }
+        if count != occ.len() {
+            return Some(enumr::fail("search", format!("count/{pc}"), format!("text {} pattern {}: search reports {count} occurrences, a naive scan finds {} at {:?}", brief(t), brief(&p), occ.len(), &occ[..occ.len().min(8)])));
+        }
+        if start + count > n {
+            return Some(enumr::fail("search", format!("range_out_of_bounds/{pc}"), format!("text {} pattern {}: range ({start},{count}) exceeds {n} ranks", brief(t), brief(&p))));
+        }
+        let mut got: Vec<usize> = sa.as_slice()[start..start + count].to_vec();
+        got.sort();
+        if got != occ {
+            return Some(enumr::fail("search", format!("positions/{pc}"), format!("text {} pattern {}: ranks {start}..{} hold positions {:?}, occurrences are {:?}", brief(t), brief(&p), start + count, &got[..got.len().min(8)], &occ[..occ.len().min(8)])));
+        }
+    }
+    None
+}
+
+fn done(label: String, t: &[u8]) -> Outcome {
+    let cls = format!("{label}/{}", text_class(t));
+    if t.len() < 2 {
+        Outcome::trivial(&cls)
+    } else {
+        Outcome::pass(&cls)
+    }
+}
+
+fn run_builder(text: &Text, alg: Alg, variant: u8) -> Outcome {
+    let t = text.bytes();
+    let n = t.len();
+    let cfg = sa_config(alg, variant);
+    let ralg = resolved(&cfg, &t);
+    let sa = match SuffixArrayBuilder::new(cfg).build(&t) {
+        Ok(sa) => sa,
+        // "for every text and every construction algorithm the suffix array is ...": refusing a valid text is a violation
+        Err(e) => return sa_fail(&ralg, &t, "build_err", format!("build returned Err({e}) for text {}", brief(&t))),
+    };
+    if let Some((sym, detail)) = judge_sa(&t, sa.as_slice()) {
+        return sa_fail(&ralg, &t, sym, detail);
     }
     if sa.text_len() != n {
-        return enumr::fail("sa_permutation", "text_len", format!("text_len() = {} for a text of {n} bytes", sa.text_len()));
+        return enumr::fail("suffix_array", "text_len", format!("text_len() = {} for a text of {n} bytes", sa.text_len()));
     }
     for r in [0, n / 2, n.saturating_sub(1), n] {
         let exp = sa.as_slice().get(r).copied();
         if sa.suffix_at_rank(r) != exp {
-            return enumr::fail("sa_permutation", "suffix_at_rank", format!("suffix_at_rank({r}) = {:?}, as_slice()[{r}] = {:?}", sa.suffix_at_rank(r), exp));
+            return enumr::fail("suffix_array", "suffix_at_rank", format!("suffix_at_rank({r}) = {:?}, as_slice()[{r}] = {:?}", sa.suffix_at_rank(r), exp));
         }
     }
     // LCP (Kasai) over this suffix array
-    match LcpArray::new(t, sa) {
-        Err(e) => return enumr::fail("lcp", "lcp_err", format!("LcpArray::new returned Err({e}) for text {}", brief(t))),
+    match LcpArray::new(&t, &sa) {
+        Err(e) => return enumr::fail("lcp", "lcp_err", format!("LcpArray::new returned Err({e}) for text {}", brief(&t))),
         Ok(l) => {
-            if let Some((class, detail)) = judge_lcp(t, sa.as_slice(), l.as_slice()) {
+            if let Some((class, detail)) = judge_lcp(&t, sa.as_slice(), l.as_slice()) {
                 return enumr::fail("lcp", class, detail);
             }
             if n > 0 && (l.lcp_at(n - 1) != Some(l.as_slice()[n - 1]) || l.lcp_at(n).is_some()) {
@@ -470,103 +553,35 @@ fn judge_suffix_array(case_text: &Text, t: &[u8], sa: &SuffixArray, with_search:
             }
         }
     }
+    let with_search = variant == 0 || variant == 3;
     if with_search {
-        let (alpha, foreign) = case_text.alphabet(t);
-        for p in patterns(t, &alpha, foreign) {
-            let occ = naive_occurrences(t, &p);
-            let (start, count) = sa.search(t, &p);
-            let (lo, hi) = sa.search_range(t, &p);
-            let pc = pattern_class(t, &p, occ.len());
-            if hi < lo || hi - lo != count || (count > 0 && lo != start) {
-                return enumr::fail("search", format!("search_vs_search_range/{pc}"), format!("text {} pattern {}: search = ({start},{count}), search_range = ({lo},{hi})", brief(t), brief(&p)));
-            }
-            if count != occ.len() {
-                return enumr::fail("search", format!("count/{pc}"), format!("text {} pattern {}: search reports {count} occurrences, a naive scan finds {} at {:?}", brief(t), brief(&p), occ.len(), &occ[..occ.len().min(8)]));
-            }
-            if start + count > n {
-                return enumr::fail("search", format!("range_out_of_bounds/{pc}"), format!("text {} pattern {}: range ({start},{count}) exceeds {n} ranks", brief(t), brief(&p)));
-            }
-            let mut got: Vec<usize> = sa.as_slice()[start..start + count].to_vec();
-            got.sort();
-            if got != occ {
-                return enumr::fail("search", format!("positions/{pc}"), format!("text {} pattern {}: ranks {start}..{} hold positions {:?}, occurrences are {:?}", brief(t), brief(&p), start + count, &got[..got.len().min(8)], &occ[..occ.len().min(8)]));
-            }
+        if let Some(f) = judge_search(text, &t, &sa) {
+            return f;
         }
     }
-    let cls = format!("{label}/{}", text_class(t));
-    if n < 2 {
-        Outcome::trivial(&cls)
-    } else {
-        Outcome::pass(&cls)
-    }
+    done(format!("builder/{ralg}/v{variant}{}", if with_search { "+search" } else { "" }), &t)
 }
 
-fn run_builder(alg: SuffixArrayAlgorithm, c: &SaCase) -> Outcome {
-    let t = c.text.bytes();
-    let builder = SuffixArrayBuilder::new(sa_config(alg, c.variant));
-    let sa = match builder.build(&t) {
-        Ok(sa) => sa,
-        // "for every text and every construction algorithm the suffix array is ...": a refusal of a valid text is a violation
-        Err(e) => return enumr::fail("build_err", text_class(&t), format!("build returned Err({e}) for text {}", brief(&t))),
-    };
-    let chosen = if alg == SuffixArrayAlgorithm::Adaptive { format!("{:?}", builder.select_algorithm(&t)) } else { String::new() };
-    judge_suffix_array(&c.text, &t, &sa, c.variant == 0 || c.variant == 3, &format!("v{}{}", c.variant, chosen))
-}
-
-fn builder_gen(alg: SuffixArrayAlgorithm) -> impl Fn(Tier, &mut dyn FnMut(SaCase) -> bool) -> bool {
-    move |tier, f| {
-        let variants: &[u8] = match alg {
-            SuffixArrayAlgorithm::SAIS => &[0, 1, 2],
-            SuffixArrayAlgorithm::Adaptive => &[0, 3, 4],
-            _ => &[0, 2],
-        };
-        for &variant in variants {
-            if !texts(tier, 0, 0, grid_max(tier), &mut |text| f(SaCase { text, variant })) {
-                return false;
-            }
-            // the default adaptive threshold is 10_000: one length beyond it (thorough; cheap shapes only in quick)
-            if alg == SuffixArrayAlgorithm::Adaptive && variant == 0 {
-                for &shape in ALL_TSHAPES {
-                    let cheap = matches!(shape, TShape::Cyc256 | TShape::Rev256 | TShape::Noise256 | TShape::ThueMorse | TShape::Fib);
-                    if (tier == Tier::Thorough || cheap) && !f(SaCase { text: Text::Grid { shape, n: 10_001 }, variant }) {
-                        return false;
-                    }
-                }
-            }
-        }
-        true
-    }
-}
-
-// ------------------------------------------------------------------------------------------------
-// algorithms::suffix_array::EnhancedSuffixArray::{with_lcp, with_bwt}
-
-#[derive(Clone, Debug, Hash, Serialize, Deserialize)]
-struct EsaCase {
-    text: Text,
-    /// false = with_lcp, true = with_bwt
-    bwt: bool,
-}
-
-fn run_esa(c: &EsaCase) -> Outcome {
-    let t = c.text.bytes();
+fn run_enhanced(text: &Text, bwt: bool) -> Outcome {
+    let t = text.bytes();
     let n = t.len();
-    let esa = match if c.bwt { EnhancedSuffixArray::with_bwt(&t) } else { EnhancedSuffixArray::with_lcp(&t) } {
+    let ralg = resolved(&SuffixArrayConfig::default(), &t);
+    let esa = match if bwt { EnhancedSuffixArray::with_bwt(&t) } else { EnhancedSuffixArray::with_lcp(&t) } {
         Ok(e) => e,
-        Err(e) => return enumr::fail("build_err", text_class(&t), format!("constructor returned Err({e}) for text {}", brief(&t))),
+        Err(e) => return sa_fail(&ralg, &t, "build_err", format!("constructor returned Err({e}) for text {}", brief(&t))),
     };
     let sa = esa.suffix_array().as_slice();
-    if let Some((clause, class, detail)) = judge_sa(&t, sa) {
-        return enumr::fail(clause, class, detail);
+    if let Some((sym, detail)) = judge_sa(&t, sa) {
+        return sa_fail(&ralg, &t, sym, detail);
     }
-    if c.bwt {
-        let Some(bwt) = esa.bwt() else {
+    if bwt {
+        let Some(b) = esa.bwt() else {
             return enumr::fail("bwt", "missing", "with_bwt produced no BWT".to_string());
         };
         // the BWT induced by the suffix order, cyclic predecessor (the library has no sentinel)
         let exp: Vec<u8> = sa.iter().map(|&p| t[(p + n - 1) % n]).collect();
-        if bwt != &exp[..] {
-            return enumr::fail("bwt", text_class(&t), format!("text {}: bwt = {}, expected {}", brief(&t), brief(bwt), brief(&exp)));
+        if b != &exp[..] {
+            return enumr::fail("bwt", text_class(&t), format!("text {}: bwt = {}, expected {}", brief(&t), brief(b), brief(&exp)));
         }
         if esa.lcp_array().is_some() {
             return enumr::fail("bwt", "unexpected_lcp", "with_bwt also carries an LCP array".to_string());
@@ -579,49 +594,265 @@ fn run_esa(c: &EsaCase) -> Outcome {
             return enumr::fail("lcp", class, detail);
         }
     }
-    let cls = format!("{}/{}", if c.bwt { "bwt" } else { "lcp" }, text_class(&t));
-    if n < 2 {
-        Outcome::trivial(&cls)
-    } else {
-        Outcome::pass(&cls)
+    done(format!("enhanced-{}/{ralg}", if bwt { "bwt" } else { "lcp" }), &t)
+}
+
+thread_local! {
+    /// one compressor per preset (each owns a SecureMemoryPool)
+    static COMPRESSORS: [OnceCell<Option<SuffixArrayCompressor>>; 3] = const { [OnceCell::new(), OnceCell::new(), OnceCell::new()] };
+}
+
+fn run_compressor(text: &Text, preset: u8) -> Outcome {
+    // documented precondition: "should end with unique sentinel" -- append 0x00, smaller than every text byte
+    let mut t = text.bytes();
+    if t.contains(&0) {
+        return Outcome::skip("text contains the sentinel byte");
+    }
+    t.push(0);
+    let n = t.len();
+    let ptext = Text::Seq { alpha: 0, hex: String::new() };
+    let (mut alpha, foreign) = text.alphabet(&t[..n - 1]);
+    alpha.retain(|&b| b != 0);
+    alpha.insert(0, 0);
+    let _ = ptext;
+    COMPRESSORS.with(|cs| {
+        let comp = cs[preset.min(2) as usize].get_or_init(|| {
+            let cfg = match preset {
+                1 => CompSaConfig::for_dictionary_compression(),
+                2 => CompSaConfig::for_realtime(),
+                _ => CompSaConfig::default(),
+            };
+            SuffixArrayCompressor::new(cfg).ok()
+        });
+        let Some(comp) = comp else {
+            return Outcome::skip("SuffixArrayCompressor::new returned Err");
+        };
+        let esa = match comp.build_suffix_array(&t) {
+            Ok(e) => e,
+            Err(e) => return sa_fail("SAIS", &t, "build_err", format!("build_suffix_array returned Err({e}) for text {}", brief(&t))),
+        };
+        let sa: Vec<usize> = (0..esa.len()).map(|r| esa.suffix_at_rank(r).unwrap_or(usize::MAX)).collect();
+        if let Some((sym, detail)) = judge_sa(&t, &sa) {
+            // the array comes from the base SA-IS builder: same array = inherited defect, different array = the wrapper's own
+            let base = SuffixArrayBuilder::new(sa_config(Alg::SAIS, 0)).build(&t).map(|b| b.as_slice().to_vec()).unwrap_or_default();
+            if base != sa {
+                return enumr::fail("suffix_array", format!("differs_from_base_builder/{}", text_class(&t)), format!("{sym}: {detail}; the base builder returned {}", show_sa(&base)));
+            }
+            return sa_fail("SAIS", &t, sym, detail);
+        }
+        if esa.text_len() != n || esa.is_empty() != (n == 0) || esa.suffix_at_rank(n).is_some() {
+            return enumr::fail("suffix_array", "accessors", format!("text_len {} is_empty {} suffix_at_rank(n) {:?} for n = {n}", esa.text_len(), esa.is_empty(), esa.suffix_at_rank(n)));
+        }
+        if preset == 1 {
+            let lcp: Vec<usize> = (0..n).map(|r| esa.lcp_at(r).unwrap_or(usize::MAX)).collect();
+            if let Some((class, detail)) = judge_lcp(&t, &sa, &lcp) {
+                return enumr::fail("lcp", class, detail);
+            }
+        } else if esa.lcp_at(0).is_some() {
+            return enumr::fail("lcp", "unexpected_lcp", "LCP array present although compute_lcp is false".to_string());
+        }
+        for p in patterns(&t, &alpha, foreign) {
+            if p.is_empty() {
+                continue; // documented by the code: the empty pattern has no occurrences here
+            }
+            let occ = naive_occurrences(&t, &p);
+            let pc = pattern_class(&t, &p, occ.len());
+            let got = esa.find_pattern(&t, &p);
+            if got != occ {
+                return enumr::fail("search", format!("find_pattern/{pc}"), format!("text {} pattern {}: find_pattern = {:?}, occurrences are {:?}", brief(&t), brief(&p), &got[..got.len().min(8)], &occ[..occ.len().min(8)]));
+            }
+            let cnt = esa.count_pattern(&t, &p);
+            let (lo, hi) = esa.find_pattern_range(&t, &p);
+            if cnt != occ.len() || hi < lo || hi - lo != occ.len() {
+                return enumr::fail("search", format!("count/{pc}"), format!("text {} pattern {}: count_pattern = {cnt}, find_pattern_range = ({lo},{hi}), occurrences {}", brief(&t), brief(&p), occ.len()));
+            }
+        }
+        done(format!("compressor/preset{preset}"), &t)
+    })
+}
+
+fn run_dictionary(text: &Text, alg: Alg) -> Outcome {
+    let t = text.bytes();
+    let n = t.len();
+    let sa_cfg = sa_config(alg, 0);
+    let ralg = resolved(&sa_cfg, &t);
+    let cfg = SuffixArrayDictionaryConfig {
+        min_frequency: 1,
+        min_pattern_length: 1,
+        max_pattern_length: usize::MAX / 2,
+        use_memory_pool: false,
+        suffix_array_config: sa_cfg,
+        ..SuffixArrayDictionaryConfig::default()
+    };
+    let mut dict = match SuffixArrayDictionary::new(&t, cfg) {
+        Ok(d) => d,
+        // a dictionary constructor may refuse its training data (that is C02's business): precondition not met
+        Err(e) => return Outcome::skip(&format!("dictionary refused: {}", zverif::core::truncate(&e.to_string(), 50))),
+    };
+    // the matcher's suffix array, observed through find_all_matches on every single byte in byte order
+    let mut bytes = t.clone();
+    bytes.sort();
+    bytes.dedup();
+    let mut sa: Vec<usize> = Vec::with_capacity(n);
+    for &b in &bytes {
+        match dict.find_all_matches(&[b], usize::MAX) {
+            Ok(ms) => sa.extend(ms.iter().map(|m| m.dict_position)),
+            Err(e) => return enumr::fail("search", "dict_find_all_err", format!("find_all_matches([{b:#x}]) returned Err({e})")),
+        }
+    }
+    if let Some((sym, detail)) = judge_sa(&t, &sa) {
+        return sa_fail(&ralg, &t, sym, format!("(array observed through find_all_matches on single bytes) {detail}"));
+    }
+    let (alpha, foreign) = text.alphabet(&t);
+    for p in patterns(&t, &alpha, foreign) {
+        if p.is_empty() {
+            continue;
+        }
+        let occ = naive_occurrences(&t, &p);
+        let pc = pattern_class(&t, &p, occ.len());
+        match dict.find_all_matches(&p, usize::MAX) {
+            Err(e) => return enumr::fail("search", "dict_find_all_err", format!("find_all_matches returned Err({e})")),
+            Ok(ms) => {
+                let mut got: Vec<usize> = ms.iter().map(|m| m.dict_position).collect();
+                got.sort();
+                if got != occ || ms.iter().any(|m| m.length != p.len()) {
+                    return enumr::fail("search", format!("dict_find_all/{pc}"), format!("text {} pattern {}: find_all_matches positions {:?}, occurrences are {:?}", brief(&t), brief(&p), &got[..got.len().min(8)], &occ[..occ.len().min(8)]));
+                }
+            }
+        }
+        // longest prefix of p that occurs in the text, and how often it occurs
+        let mut depth = 0;
+        while depth < p.len() && !naive_occurrences(&t, &p[..depth + 1]).is_empty() {
+            depth += 1;
+        }
+        let focc = naive_occurrences(&t, &p[..depth]);
+        for (which, st) in [("dict_sa_match", dict.sa_match_continuation(0, n, 0, &p)), ("dict_da_match", dict.da_match_max_length(&p))] {
+            if st.depth != depth || st.match_count() != focc.len() || st.hi > n {
+                return enumr::fail(
+                    "search",
+                    format!("{which}/{pc}"),
+                    format!("text {} input {}: range [{},{}) depth {}; the longest matching prefix has length {depth} and {} occurrences", brief(&t), brief(&p), st.lo, st.hi, st.depth, focc.len()),
+                );
+            }
+            let mut got: Vec<usize> = sa[st.lo..st.hi].to_vec();
+            got.sort();
+            if got != focc {
+                return enumr::fail("search", format!("{which}_positions/{pc}"), format!("text {} input {}: ranks [{},{}) hold {:?}, occurrences of the prefix are {:?}", brief(&t), brief(&p), st.lo, st.hi, &got[..got.len().min(8)], &focc[..focc.len().min(8)]));
+            }
+        }
+        match dict.find_longest_match(&p, 0, usize::MAX) {
+            Err(e) => return enumr::fail("search", "dict_longest_err", format!("find_longest_match returned Err({e})")),
+            Ok(m) => {
+                let ok = match &m {
+                    None => depth == 0,
+                    Some(m) => depth > 0 && m.length == depth && focc.contains(&m.dict_position),
+                };
+                if !ok {
+                    return enumr::fail("search", format!("dict_longest/{pc}"), format!("text {} input {}: find_longest_match = {:?}; longest matching prefix has length {depth} at {:?}", brief(&t), brief(&p), m.map(|m| (m.dict_position, m.length)), &focc[..focc.len().min(8)]));
+                }
+            }
+        }
+    }
+    done(format!("dictionary/{ralg}"), &t)
+}
+
+fn run_case(c: &SaCase) -> Outcome {
+    match c.entry {
+        Entry::Builder { alg, variant } => run_builder(&c.text, alg, variant),
+        Entry::EnhancedLcp => run_enhanced(&c.text, false),
+        Entry::EnhancedBwt => run_enhanced(&c.text, true),
+        Entry::Compressor { preset } => run_compressor(&c.text, preset),
+        Entry::Dictionary { sa } => run_dictionary(&c.text, sa),
     }
 }
 
-fn esa_gen(tier: Tier, f: &mut dyn FnMut(EsaCase) -> bool) -> bool {
-    for bwt in [false, true] {
-        if !texts(tier, 0, 0, grid_max(tier), &mut |text| f(EsaCase { text, bwt })) {
+// ------------------------------------------------------------------------------------------------
+// case generators
+
+fn cheap_long(shape: TShape) -> bool {
+    matches!(shape, TShape::Cyc256 | TShape::Rev256 | TShape::Noise256 | TShape::ThueMorse | TShape::ThueMorse00FF | TShape::Fib)
+}
+
+/// one length beyond the default adaptive threshold (10_000), where the default configuration starts to analyse the
+/// text; quick: shapes with short common prefixes only
+fn beyond_threshold(tier: Tier, entry: Entry, f: &mut dyn FnMut(SaCase) -> bool) -> bool {
+    for &shape in ALL_TSHAPES {
+        if (tier == Tier::Thorough || cheap_long(shape)) && !f(SaCase { text: Text::Grid { shape, n: 10_001 }, entry }) {
             return false;
-        }
-        // beyond the default adaptive threshold the constructor's algorithm choice changes
-        for &shape in ALL_TSHAPES {
-            let cheap = matches!(shape, TShape::Cyc256 | TShape::Rev256 | TShape::Noise256 | TShape::ThueMorse | TShape::Fib);
-            if (tier == Tier::Thorough || cheap) && !f(EsaCase { text: Text::Grid { shape, n: 10_001 }, bwt }) {
-                return false;
-            }
         }
     }
     true
 }
 
-//@@NEXT@@
+fn builder_gen(alg: Alg) -> impl Fn(Tier, &mut dyn FnMut(SaCase) -> bool) -> bool {
+    move |tier, f| {
+        let variants: &[u8] = match alg {
+            Alg::SAIS => &[0, 1, 2],
+            Alg::Adaptive => &[0, 3, 4],
+            _ => &[0, 2],
+        };
+        for &variant in variants {
+            let entry = Entry::Builder { alg, variant };
+            if !texts(tier, 0, 0, grid_max(tier), &mut |text| f(SaCase { text, entry })) {
+                return false;
+            }
+            if alg == Alg::Adaptive && variant == 0 && !beyond_threshold(tier, entry, f) {
+                return false;
+            }
+        }
+        true
+    }
+}
+
+fn enhanced_gen(tier: Tier, f: &mut dyn FnMut(SaCase) -> bool) -> bool {
+    for entry in [Entry::EnhancedLcp, Entry::EnhancedBwt] {
+        if !texts(tier, 0, 0, grid_max(tier), &mut |text| f(SaCase { text, entry })) {
+            return false;
+        }
+        if !beyond_threshold(tier, entry, f) {
+            return false;
+        }
+    }
+    true
+}
+
+fn compressor_gen(tier: Tier, f: &mut dyn FnMut(SaCase) -> bool) -> bool {
+    for preset in [0u8, 1, 2] {
+        let entry = Entry::Compressor { preset };
+        // texts over the sentinel-free alphabets (ids 5..8); grid texts containing 0x00 are skipped by `run`
+        if !texts(tier, 4, 0, grid_max(tier), &mut |text| f(SaCase { text, entry })) {
+            return false;
+        }
+    }
+    true
+}
+
+fn dictionary_gen(tier: Tier, f: &mut dyn FnMut(SaCase) -> bool) -> bool {
+    for sa in [Alg::Adaptive, Alg::DivSufSort] {
+        let entry = Entry::Dictionary { sa };
+        // every case builds a dictionary (DFA cache, matcher): small scope shortened by 2, grid up to 257
+        if !texts(tier, 0, 2, 257, &mut |text| f(SaCase { text, entry })) {
+            return false;
+        }
+    }
+    true
+}
 
 fn main() {
     zverif::main_with("C12", |reg, _tier| {
-        for (alg, name) in [
-            (SuffixArrayAlgorithm::SAIS, "SAIS"),
-            (SuffixArrayAlgorithm::DivSufSort, "DivSufSort"),
-            (SuffixArrayAlgorithm::DC3, "DC3"),
-            (SuffixArrayAlgorithm::LarssonSadakane, "LarssonSadakane"),
-            (SuffixArrayAlgorithm::Adaptive, "Adaptive"),
-        ] {
+        // SA-IS first: findings with subject "SuffixArray/*" are replayed on the first registered match, and every
+        // subject runs any `SaCase` the same way
+        for (alg, name) in [(Alg::SAIS, "SAIS"), (Alg::DivSufSort, "DivSufSort"), (Alg::DC3, "DC3"), (Alg::LarssonSadakane, "LarssonSadakane"), (Alg::Adaptive, "Adaptive")] {
             add(
                 reg,
-                &format!("SuffixArrayBuilder[{name}]"),
+                &format!("SuffixArray/Builder[{name}]"),
                 &format!("{TEXT_SPACE} x variant {{defaults; optimize_small_alphabet=false (SAIS); use_parallel with parallel_threshold 0; adaptive_threshold 0 / 8 (Adaptive; + length 10001 with the default threshold)}}; as_slice/suffix_at_rank/text_len, LcpArray::new over the built array, and search/search_range with {PATTERN_SPACE} (search: variants 0 and 3)"),
                 builder_gen(alg),
-                move |c: &SaCase| run_builder(alg, c),
+                run_case,
             );
         }
-        add(reg, "EnhancedSuffixArray::{with_lcp,with_bwt}", &format!("{TEXT_SPACE} + length 10001 (beyond the default adaptive threshold); BWT convention: cyclic predecessor, no sentinel"), esa_gen, run_esa);
+        add(reg, "SuffixArray/Enhanced{with_lcp,with_bwt}", &format!("{TEXT_SPACE} + length 10001 (beyond the default adaptive threshold); BWT convention: cyclic predecessor, no sentinel"), enhanced_gen, run_case);
+        add(reg, "SuffixArray/compression::SuffixArrayCompressor", &format!("texts = (text over {{61}}, {{61,62}}, {{01,61,FF}}, {{01,61,62,FF}} or a grid text without 0x00) + sentinel 0x00; same length bounds as: {TEXT_SPACE}; x preset {{default, for_dictionary_compression (LCP), for_realtime}}; suffix_at_rank, lcp_at, find_pattern / count_pattern / find_pattern_range with {PATTERN_SPACE}"), compressor_gen, run_case);
+        add(reg, "SuffixArray/dict_zip::SuffixArrayDictionary", &format!("small-scope lengths 2 shorter than: {TEXT_SPACE}; grid lengths <= 257; x suffix_array_config algorithm {{Adaptive (default), DivSufSort}}; the matcher's array observed through find_all_matches on single bytes; find_all_matches, sa_match_continuation, da_match_max_length, find_longest_match with {PATTERN_SPACE}"), dictionary_gen, run_case);
     });
 }
